@@ -2,9 +2,9 @@
    update_line_dict, delete, erase, rebuild_line_dict, list_lines, get_line_number) and of
    base/codestream.py TokenisedStream.skip_to (single-byte find ranges).  NO proofs here.
 
-   The model is of the code WITH the repairs fixes/D13a.patch (a REM token byte inside a string literal
-   does not start a comment in skip_to) and fixes/D13b.patch (the memory check of store_line counts the
-   lines behind the insertion point).  Token-length table, token bytes, blanks and error numbers are
+   The model is of the code WITH the repair fixes/D13b.patch (the memory check of store_line counts the
+   lines behind the insertion point); skip_to is modelled as of /repo commit 22fc0dbb (a REM token byte
+   inside a string literal does not start a comment - defect D13a of this check, repaired there).  Token-length table, token bytes, blanks and error numbers are
    regenerated from /repo (gen/Gen_program.v).
 
    bytecode  : list Z (bytes), offsets are Z
